@@ -32,8 +32,12 @@ def main():
         except BaseException as e:  # harness/oracle bug: never a verdict about Polar
             if isinstance(e, (KeyboardInterrupt, SystemExit)):
                 raise
-            res = {"verdict": "inconclusive", "reason": "oracle-error:" + type(e).__name__,
-                   "trace": traceback.format_exc()[-1500:]}
+            if type(e).__name__ in ("CapExceeded", "Unsupported", "SoftTimeout") and "polarmon/ref/" in traceback.format_exc()[-700:]:
+                # the reference engine declined (size cap / construct outside the oracle) somewhere the check did not guard
+                res = {"verdict": "inconclusive", "reason": "oracle-" + type(e).__name__, "detail": str(e)[:100]}
+            else:
+                res = {"verdict": "inconclusive", "reason": "oracle-error:" + type(e).__name__,
+                       "trace": traceback.format_exc()[-1500:]}
         res["wall"] = round(time.time() - t0, 3)
         res["history_len"] = len(history)
         history.append(case.get("id"))
